@@ -16,6 +16,7 @@ import itertools
 import json
 
 from mc import env, mibspec, pysnmp_rec, refir
+from mc import core
 from mc.catalogue import U32, U64, I64MIN
 
 BOUNDS = {
@@ -407,8 +408,10 @@ def pysnmp_denotation(cls, prim, enum):
             if isinstance(val, str):
                 return ('octets', val.encode('utf-8'))
         if prim in ('int', 'enum'):
-            if isinstance(val, str) and enum and val in enum:
-                return ('int', enum[val])
+            if isinstance(val, str):
+                # pyasn1 takes a class-level defaultValue as it is: a label would stay a string that can be neither compared
+                # nor encoded (checked against pyasn1 0.6: int(obj) raises ValueError)
+                return ('undecodable', 'integer default given as the string %r' % val)
             if attr != 'defaultValue':
                 # pyasn1's Integer knows neither defaultHexValue nor defaultBinValue: the default would be lost on loading
                 return ('undecodable', 'integer default given as %s' % attr)
@@ -741,4 +744,119 @@ class SameNamedTypes(object):
         return repr(outcome), vs, 2
 
 
-FAMILIES = [Refinements(), Defaults(), SameNamedTypes(), RefinedChains(), ShoutedNames(), DefaultsFromFiles()]
+class ImportedNamesakes(object):
+    name = 'imported-types-named-like-the-implicit-imports'
+    describe = ('a vendor module (named ACME-TC: sorts before SNMPv2-*, or ZZZ-TC: after) defines its own DisplayString / TimeTicks / '
+                'Counter32 / Gauge32 / Unsigned32 / Integer32 / IpAddress / Counter64 (an enumeration, or a shorter string); TEST-MIB '
+                'imports that name from it, declares an object of the type with a DEFVAL that only the vendor type admits: the base '
+                'type is resolved through the vendor module, whatever its name; both back ends')
+
+    NAMES = ['DisplayString', 'TimeTicks', 'Counter32', 'Gauge32', 'Unsigned32', 'Integer32', 'IpAddress', 'Counter64']
+
+    def blocks(self, tier):
+        return [{'vendor': v} for v in ('ACME-TC', 'ZZZ-TC')]
+
+    def cases(self, block, tier):
+        for n in self.NAMES:
+            for kind in ('enum', 'string'):
+                yield {'vendor': block['vendor'], 'name': n, 'kind': kind}
+
+    def run_case(self, case):
+        vendor, name = case['vendor'], case['name']
+        if case['kind'] == 'enum':
+            tdef = '%s ::= INTEGER { slow(1), fast(2) }' % name
+            defval, want = 'fast', ('int', 2)
+        else:
+            tdef = '%s ::= OCTET STRING (SIZE (0..8))' % name
+            defval, want = '"abc"', ('octets', b'abc')
+        vtext = '%s DEFINITIONS ::= BEGIN\n%s\nEND\n' % (vendor, tdef)
+        ttext = ('TEST-MIB DEFINITIONS ::= BEGIN\nIMPORTS OBJECT-TYPE, enterprises FROM SNMPv2-SMI %s FROM %s;\n'
+                 'o1 OBJECT-TYPE SYNTAX %s MAX-ACCESS read-write STATUS current DESCRIPTION "d" DEFVAL { %s } ::= { enterprises 99 }\n'
+                 'END\n' % (name, vendor, name, defval))
+        sig = 'C05|imported-namesake|%s|%s|%s' % (name, case['kind'], 'sorts-first' if vendor < 'SNMP' else 'sorts-last')
+        vs = []
+        for backend in ('json', 'pysnmp'):
+            parser = env.shared_parser('smiV2')
+            parser.reset()
+            res, written = env.compile_set({vendor: vtext, 'TEST-MIB': ttext}, ['TEST-MIB'], codegen=backend, dialect=parser)
+            if res.get('TEST-MIB') != 'compiled' or res.get(vendor) != 'compiled':
+                vs.append(('%s|%s|not-compiled' % (sig, backend), '%r %r\n%s' % (
+                    dict((k, str(v)) for k, v in res.items()), getattr(res.get('TEST-MIB'), 'error', None), ttext)))
+                continue
+            if backend == 'json':
+                doc = json.loads(written['TEST-MIB'])
+                d = (doc.get('o1', {}).get('default') or {}).get('default') or {}
+                got = None
+                if d.get('format') == 'enum':
+                    got = ('int', d.get('number', {'slow': 1, 'fast': 2}.get(d.get('value'))))
+                elif d.get('format') == 'string':
+                    got = ('octets', d.get('value', '').encode())
+                elif d.get('format') == 'decimal':
+                    got = ('int', d.get('value'))
+                if got != want:
+                    vs.append(('%s|json|default-differs' % sig, 'DEFVAL { %s } denotes %r, document says %r\n%s' % (defval, want, d, ttext)))
+                homes = [m for m, syms in doc.get('imports', {}).items() if isinstance(syms, list) and name in syms]
+                if homes != [vendor]:
+                    vs.append(('%s|json|name-imported-from-%s' % (sig, '+'.join(sorted(homes)) or 'nowhere'), repr(doc.get('imports'))))
+            else:
+                rb = pysnmp_rec.RecBuilder()
+                nsv, err = pysnmp_rec.run_module(written[vendor], rb)
+                ns, err2 = (None, None) if err else pysnmp_rec.run_module(written['TEST-MIB'], rb)
+                if err or err2:
+                    vs.append(('%s|pysnmp|does-not-execute|%s' % (sig, (err or err2).split(':')[0]), '%s\n%s' % (err or err2, ttext)))
+                    continue
+                bound = ns.get(name)
+                if bound is not rb.exports.get(vendor, {}).get(name):
+                    vs.append(('%s|pysnmp|name-bound-to-another-modules-type' % sig,
+                               '%s is %r, the vendor module exports %r\n%s' % (name, bound, rb.exports.get(vendor, {}).get(name), ttext)))
+        return 'ok' if not vs else 'bad', vs, 2
+
+
+class LongChains(object):
+    name = 'very-long-chains'
+    describe = ('a chain of 1500 type assignments ending in an enumeration with a DEFVAL { label } on an object at its end, and an '
+                'object below a chain of 1500 OID parents: both compile (chains of any length), default and OID as declared')
+
+    def blocks(self, tier):
+        return [{'what': w} for w in ('types', 'parents')]
+
+    def cases(self, block, tier):
+        for backend in ('json', 'pysnmp'):
+            yield {'what': block['what'], 'backend': backend, 'n': 1500}
+
+    def run_case(self, case):
+        n = case['n']
+        if case['what'] == 'types':
+            body = 'T0 ::= INTEGER { a(1), b(2) }\n' + ''.join('T%d ::= T%d\n' % (i, i - 1) for i in range(1, n)) + \
+                'o1 OBJECT-TYPE SYNTAX T%d MAX-ACCESS read-write STATUS current DESCRIPTION "d" DEFVAL { b } ::= { enterprises 99 }\n' % (n - 1)
+        else:
+            body = 'n0 OBJECT IDENTIFIER ::= { enterprises 99 }\n' + ''.join('n%d OBJECT IDENTIFIER ::= { n%d 1 }\n' % (i, i - 1) for i in range(1, n)) + \
+                'o1 OBJECT-TYPE SYNTAX INTEGER MAX-ACCESS read-write STATUS current DESCRIPTION "d" ::= { n%d 5 }\n' % (n - 1)
+        text = 'TEST-MIB DEFINITIONS ::= BEGIN\nIMPORTS OBJECT-TYPE, enterprises FROM SNMPv2-SMI;\n' + body + 'END\n'
+        sig = 'C05|long-chain|%s|%s' % (case['what'], case['backend'])
+        parser = env.shared_parser('smiV2')
+        parser.reset()
+        try:
+            res, written = env.compile_set({'TEST-MIB': text}, ['TEST-MIB'], codegen=case['backend'], dialect=parser)
+        except BaseException as exc:
+            if isinstance(exc, (KeyboardInterrupt, core.CaseTimeout)):
+                raise
+            return 'escaped', [('%s|exception-escapes-compile|%s' % (sig, type(exc).__name__), 'chain of %d' % n)], 1
+        if res.get('TEST-MIB') != 'compiled':
+            return 'failed', [('%s|not-compiled' % sig, 'chain of %d: %r' % (n, getattr(res.get('TEST-MIB'), 'error', None)))], 1
+        vs = []
+        if case['backend'] == 'json':
+            doc = json.loads(written['TEST-MIB'])
+            if case['what'] == 'types':
+                d = (doc.get('o1', {}).get('default') or {}).get('default') or {}
+                if d.get('value') != 'b' or d.get('number', 2) != 2:
+                    vs.append(('%s|default-differs' % sig, repr(d)))
+            else:
+                want = '1.3.6.1.4.1.99' + '.1' * (n - 1) + '.5'
+                if doc.get('o1', {}).get('oid') != want:
+                    vs.append(('%s|oid-differs' % sig, '%r' % doc.get('o1', {}).get('oid')[:80]))
+        return 'ok', vs, 1
+
+
+FAMILIES = [Refinements(), Defaults(), SameNamedTypes(), RefinedChains(), ShoutedNames(), DefaultsFromFiles(), ImportedNamesakes(),
+            LongChains()]
